@@ -140,15 +140,17 @@ func GenData(r *rand.Rand, rs int, tag *uint32) *Data {
 // ---------------------------------------------------------------- histories
 
 type GenOpts struct {
-	MaxOps    int
-	Style     string
-	Symlinks  bool
-	Handles   bool // openfile/write/close groups
-	Reads     bool // readfile / stat ops
-	Sleeps    bool
-	ValidBias float64
-	RS        int
-	NoRename  bool
+	MaxOps     int
+	Style      string
+	Symlinks   bool
+	Handles    bool // openfile/write/close groups
+	Interleave bool // namespace calls between the calls of a handle group
+	Init       []Op // calls that have already happened: they steer the generation, they are not emitted
+	Reads      bool // readfile / stat ops
+	Sleeps     bool
+	ValidBias  float64
+	RS         int
+	NoRename   bool
 	// known-finding relaxations
 	AvoidSuffixes   []string // KF1: names ending in the active pipeline suffix
 	NoSymlinkRename bool     // KF7: rename of a directory holding a symlink target
@@ -239,6 +241,19 @@ func GenHistory(r *rand.Rand, o GenOpts) ([]Op, Universe) {
 	}
 	g := &genState{r: r, u: GenUniverseAvoid(r, o.Style, o.AvoidSuffixes), o: o, now: 946684800}
 	g.ref = NewRefFS(func() int64 { return g.now * 1e9 }, 0o777)
+	for _, op := range o.Init {
+		g.ref.Apply(op)
+		if op.D != nil && op.D.Tag > g.tag {
+			g.tag = op.D.Tag
+		}
+	}
+	for h := range g.ref.H {
+		g.ref.Apply(Op{K: "h.close", H: h})
+	}
+	if o.Sleeps && r.Float64() < 0.7 {
+		// start off a whole second: sub-second timestamps
+		g.emit(Op{K: "sleep", N: 1 + r.IntN(999999999)})
+	}
 	n := 1 + r.IntN(o.MaxOps)
 	if r.Float64() < 0.5 && n > 8 {
 		n = 1 + r.IntN(8)
@@ -271,7 +286,11 @@ func GenHistory(r *rand.Rand, o GenOpts) ([]Op, Universe) {
 		{w(3), func() { g.emit(Op{K: "chmod", P: g.anyPath(), M: perms[r.IntN(len(perms))]}) }},
 		{w(2), func() { g.emit(Op{K: "chown", P: g.anyPath(), U: 1000 + r.IntN(5), G: 100 + r.IntN(5)}) }},
 		{w(2), func() {
-			g.emit(Op{K: "chtimes", P: g.anyPath(), T1: 1000000000 + int64(r.IntN(1e8)), T2: 1100000000 + int64(r.IntN(1e8))})
+			ns := 0
+			if r.Float64() < 0.5 {
+				ns = r.IntN(1e9) // sub-second timestamps
+			}
+			g.emit(Op{K: "chtimes", P: g.anyPath(), T1: 1000000000 + int64(r.IntN(1e8)), T2: 1100000000 + int64(r.IntN(1e8)), N: ns})
 		}},
 	}
 	if !o.NoRename {
@@ -305,9 +324,10 @@ func GenHistory(r *rand.Rand, o GenOpts) ([]Op, Universe) {
 	}
 	if o.Sleeps {
 		gens = append(gens, gen{w(2), func() {
-			d := []int64{1, 60, 3600, 86400, 86400 * 365, 86400 * 365 * 30}[r.IntN(6)]
+			d := []int64{0, 1, 60, 3600, 86400, 86400 * 365, 86400 * 365 * 30}[r.IntN(7)]
+			ns := 1 + r.IntN(999999999) // the clock is rarely on a whole second
 			g.now += d
-			g.emit(Op{K: "sleep", O: d})
+			g.emit(Op{K: "sleep", O: d, N: ns})
 		}})
 	}
 	if o.Handles {
@@ -330,6 +350,38 @@ func GenHistory(r *rand.Rand, o GenOpts) ([]Op, Universe) {
 			if e.Class != "ok" {
 				return
 			}
+			interleave := func() {
+				// calls on the namespace while the (write) handle is open: the entry's
+				// attributes change, it is removed, other entries come and go. Renaming
+				// an open entry is not generated (no uniform reference behaviour).
+				if !o.Interleave || r.Float64() > 0.45 {
+					return
+				}
+				switch r.IntN(8) {
+				case 0:
+					g.emit(Op{K: "chmod", P: p, M: perms[r.IntN(len(perms))]})
+				case 1:
+					g.emit(Op{K: "chown", P: p, U: 1000 + r.IntN(5), G: 100 + r.IntN(5)})
+				case 2:
+					g.emit(Op{K: "chtimes", P: p, T1: 1000000000 + int64(r.IntN(1e8)), T2: 1100000000 + int64(r.IntN(1e8)), N: r.IntN(2) * r.IntN(1e9)})
+				case 3:
+					g.emit(Op{K: "stat", P: p})
+				case 4:
+					g.emit(Op{K: "remove", P: p})
+				case 5:
+					g.emit(Op{K: "mkdir", P: g.newPath(), M: 0o755})
+				case 6:
+					q := g.newPath()
+					if q != p {
+						g.emit(Op{K: "writefile", P: q, D: GenData(r, o.RS, &g.tag)})
+					}
+				case 7:
+					if d := path.Dir(p); d != "/" {
+						g.emit(Op{K: "removeall", P: d})
+					}
+				}
+			}
+			interleave()
 			for i := r.IntN(3); i > 0; i-- {
 				switch r.IntN(4) {
 				case 0:
@@ -339,6 +391,7 @@ func GenHistory(r *rand.Rand, o GenOpts) ([]Op, Universe) {
 				default:
 					g.emit(Op{K: "h.write", H: h, D: GenData(r, o.RS, &g.tag)})
 				}
+				interleave()
 			}
 			if r.Float64() < 0.2 {
 				g.emit(Op{K: "h.sync", H: h})
